@@ -57,7 +57,23 @@ Definition local_score (C : nat -> nat -> R) (Cpool : nat -> nat -> nat -> nat -
 
 Ltac nz := repeat split; first [assumption | lra | nra | (apply not_0_INR; lia)].
 (** close an equation by algebra, going under a function head only when needed *)
-Ltac fin := solve [ reflexivity | lra | field; nz | f_equal; fin ].
+Ltac fin := solve [ reflexivity | lra | field; nz | progress f_equal; fin ].
+(** make the argument of a non-algebraic head ([Rmax], [sqrt], [ln], [Rabs]) on the
+    left literally equal to a provably equal one on the right (inner heads first) *)
+Ltac align_head :=
+  match goal with |- ?L = ?R =>
+    match L with
+    | context [Rmax ?B _] => match R with context [Rmax ?A _] =>
+        tryif constr_eq A B then fail else replace B with A by fin end
+    | context [sqrt ?B] => match R with context [sqrt ?A] =>
+        tryif constr_eq A B then fail else replace B with A by fin end
+    | context [ln ?B] => match R with context [ln ?A] =>
+        tryif constr_eq A B then fail else replace B with A by fin end
+    | context [Rabs ?B] => match R with context [Rabs ?A] =>
+        tryif constr_eq A B then fail else replace B with A by fin end
+    end
+  end.
+Ltac kern_eq := do 8 (try align_head); fin.
 
 (* ------------------------------------------------------------------------- *)
 (** * Basic list facts *)
@@ -151,7 +167,7 @@ Lemma l2_optim_slice s e : (s < e <= length xs)%nat ->
 Proof.
   intros H. unfold l2_cost_optim_R, l2L, P1, P2. split_at s e.
   rewrite slice_length by lia.
-  assert (Hn : 0 < INR (e - s)) by (apply lt_0_INR; lia). fin.
+  assert (Hn : 0 < INR (e - s)) by (apply lt_0_INR; lia). kern_eq.
 Qed.
 
 Lemma l2_fixed_slice mu s e : (s < e <= length xs)%nat ->
@@ -159,7 +175,7 @@ Lemma l2_fixed_slice mu s e : (s < e <= length xs)%nat ->
 Proof.
   intros H. unfold l2_cost_fixed_R, l2fixL, P1, P2. split_at s e.
   rewrite slice_length by lia.
-  assert (Hn : 0 < INR (e - s)) by (apply lt_0_INR; lia). fin.
+  assert (Hn : 0 < INR (e - s)) by (apply lt_0_INR; lia). kern_eq.
 Qed.
 
 Lemma var_slice s e : (s < e <= length xs)%nat ->
@@ -167,7 +183,7 @@ Lemma var_slice s e : (s < e <= length xs)%nat ->
 Proof.
   intros H. unfold var_from_sums_R, varL, uvar, floor_var, P1, P2. split_at s e.
   rewrite slice_length by lia.
-  assert (Hn : 0 < INR (e - s)) by (apply lt_0_INR; lia). fin.
+  assert (Hn : 0 < INR (e - s)) by (apply lt_0_INR; lia). kern_eq.
 Qed.
 
 Lemma gvar_optim_slice s e : (s < e <= length xs)%nat ->
@@ -176,11 +192,7 @@ Proof.
   intros H. unfold gaussian_var_cost_optim_R, gvarL, varL, uvar, floor_var, P1, P2. split_at s e.
   rewrite slice_length by lia.
   assert (Hn : 0 < INR (e - s)) by (apply lt_0_INR; lia).
-  (* make the argument of the kernel's [ln] literally that of [gvarL], then algebra *)
-  match goal with |- ?L = _ * ln ?A + _ =>
-    match L with context [ln ?B] => replace B with A by fin end
-  end.
-  fin.
+  kern_eq.
 Qed.
 
 Lemma gvar_fixed_slice mu v s e : (s < e <= length xs)%nat -> v <> 0 ->
@@ -188,7 +200,7 @@ Lemma gvar_fixed_slice mu v s e : (s < e <= length xs)%nat -> v <> 0 ->
 Proof.
   intros H Hv. unfold gaussian_var_cost_fixed_R, gfixL, l2fixL, P1, P2. split_at s e.
   rewrite slice_length by lia.
-  assert (Hn : 0 < INR (e - s)) by (apply lt_0_INR; lia). fin.
+  assert (Hn : 0 < INR (e - s)) by (apply lt_0_INR; lia). kern_eq.
 Qed.
 
 Lemma saving_slice s e : (s < e <= length xs)%nat ->
@@ -196,7 +208,7 @@ Lemma saving_slice s e : (s < e <= length xs)%nat ->
 Proof.
   intros H. unfold l2_saving_R, savingL, P1. split_at s e.
   rewrite slice_length by lia.
-  assert (Hn : 0 < INR (e - s)) by (apply lt_0_INR; lia). fin.
+  assert (Hn : 0 < INR (e - s)) by (apply lt_0_INR; lia). kern_eq.
 Qed.
 
 Lemma cusum_slice s k e : (s < k < e)%nat -> (e <= length xs)%nat ->
@@ -209,7 +221,7 @@ Proof.
   rewrite ?mult_INR, ?plus_INR.
   assert (Hna : 0 < INR (k - s)) by (apply lt_0_INR; lia).
   assert (Hnb : 0 < INR (e - k)) by (apply lt_0_INR; lia).
-  fin.
+  kern_eq.
 Qed.
 
 End SliceForms.
